@@ -14,7 +14,7 @@ RULE = ('random directory trees (depth <= 4): tests modules and tests packages w
         '"cli" cases run --list-tests with -m filters and -s packages and record which module files executed; '
         'non-trivial = at least one file found and one candidate rejected')
 TRUSTED_BASE = ["os.walk, the import system and Python's re (identifier / tests / test-file patterns are oracles on names) are external"]
-ASSUMPTIONS = ['no symlinks; in CLI cases distinct files map to distinct module names (generator rejects collisions of module '
+ASSUMPTIONS = ['symbolic links to directories only where all sub-directories of a directory are links (the runner walks linked sub-directories before real ones); in CLI cases distinct files map to distinct module names (generator rejects collisions of module '
                'and package names between roots: Python itself would import only one of them)']
 
 DIRN = ['pkg', 'tests', 'ftests', 'sub', 'my-data', 'node_modules', '.git', '__pycache__', 'CVS', 't2', 'tests_more', '9lives', 'deep', 'pkg2', 'subs']
@@ -32,10 +32,14 @@ def rand_dir(rng, depth, cli):
             continue
         entries[n] = ['f', n, '']
     if depth > 0:
+        # in some directories every sub-directory is a symbolic link to a directory elsewhere: walked like directories, pruned by
+        # the same rules (a directory mixing linked and real sub-directories is not generated: the runner walks the linked ones
+        # first, which the tree model does not distinguish)
+        links = rng.random() < 0.15
         for _ in range(rng.randint(0, 3)):
             n = rng.choice(DIRN)
             if n not in entries and n + '.py' not in entries:
-                entries[n] = ['d', n, rand_dir(rng, depth - 1, cli)]
+                entries[n] = ['d', n, rand_dir(rng, depth - 1, cli)] + (['link'] if links else [])
     return list(entries.values())
 
 
@@ -158,6 +162,7 @@ def generate(rng, tier, rep):
                                   else 'is a separate directory'))
         rep.count('with --package' if c['spkgs'] else 'without --package')
         rep.count('patterns=' + ' '.join(flags[:4]))
+        rep.count('tree with symlinked directories' if '"link"' in __import__('json').dumps(tree) else 'tree without symlinks')
     return cases
 
 
@@ -254,4 +259,4 @@ LEVEL_TEXT = ('Unbounded theorems over all trees and regex oracles: found <=> te
               'events of CLI runs on every run; the flat statement c14_ok is evaluated in Coq on the implementation\'s results.')
 LEVEL_NOTE = ('--package (-s) is exercised through direct cases whose package import is answered by a stand-in; mounted packages of CLI '
               'cases are made importable by a generated knitting package on PYTHONPATH. os.walk / import system / re are external; '
-              'no symlinks in C14 trees.')
+              'symbolic links only as described in the assumptions.')
